@@ -20,6 +20,8 @@ def builtin_shapes():
                 continue
             key = (info.parameters.npars, info.parameters.nmagnetic)
             _shapes.setdefault(key, name)
+            key3 = key + (len(info.parameters.kernel_parameters),)
+            _shapes.setdefault(key3, name)
     return _shapes
 
 
@@ -121,7 +123,9 @@ def make(op, nparts, sym, Rs, k):
         names = []
         for i in range(nparts):
             key = (z3val(model, sym["npars"][i]), z3val(model, sym["nmag"][i]))
-            names.append(shapes.get(key) or ["line", "sphere", "cylinder", "guinier"][i % 4])
+            key3 = key + (z3val(model, sym["nkp"][i]),)
+            names.append(shapes.get(key3) or shapes.get(key)
+                         or ["line", "sphere", "cylinder", "guinier"][i % 4])
         nq = max(1, min(int(z3val(model, sym["nq"])), 6))
         R = [[z3val(model, Rk(z3.IntVal(j))) for j in range(nq)] for Rk in Rs]
         # make sure the q index the solver chose is among those replayed
@@ -131,7 +135,10 @@ def make(op, nparts, sym, Rs, k):
                 if jq >= nq:
                     R = [r + [z3val(model, Rk(z3.IntVal(jq)))] for r, Rk in zip(R, Rs)]
         tried = []
-        for attempt, nm in enumerate([names, ["line", "sphere", "cylinder", "guinier"][:nparts]]):
+        generic = [["line", "sphere", "cylinder", "guinier"][:nparts],
+                   ["core_multi_shell", "sphere", "onion", "line"][:nparts],
+                   ["sphere", "core_multi_shell", "line", "onion"][:nparts]]
+        for attempt, nm in enumerate([names] + generic):
             try:
                 bad, info = run_real(op, nm, R)
             except Exception as exc:
@@ -143,3 +150,29 @@ def make(op, nparts, sym, Rs, k):
                               "inputs": info, "mismatches": bad}
         return False, {"tried": tried}
     return replay
+
+
+def replay_magnetic_flag(model):
+    """Two parts with SLDs, only the first magnetised, polarised beam: the
+    mixture against the sum of its parts evaluated alone (real DirectModel)."""
+    import numpy as np
+    from sasmodels.core import load_model
+    from sasmodels.data import empty_data2D
+    from sasmodels.direct_model import DirectModel
+    q = np.linspace(-0.05, 0.05, 5)
+    data = empty_data2D(q, q, resolution=0.0)
+    common = dict(up_frac_i=0.3, up_frac_f=0.8, up_theta=40.0, up_phi=55.0)
+    pa = dict(radius=40.0, sld=3.0, sld_solvent=1.0, sld_M0=2.0, sld_mtheta=30.0, sld_mphi=20.0)
+    pb = dict(radius=15.0, length=80.0, sld=4.0, sld_solvent=1.0, theta=30.0, phi=10.0)
+    mix = DirectModel(data, load_model("sphere+cylinder"))
+    pars = dict(scale=1.0, background=0.0, A_scale=1.0, B_scale=1.0, **common)
+    pars.update(("A_" + k, v) for k, v in pa.items())
+    pars.update(("B_" + k, v) for k, v in pb.items())
+    total = mix(**pars)
+    ia = DirectModel(data, load_model("sphere"))(scale=1.0, background=0.0, **common, **pa)
+    ib = DirectModel(data, load_model("cylinder"))(scale=1.0, background=0.0, **pb)
+    err = float(np.max(np.abs(total - (ia + ib)) / np.abs(ia + ib)))
+    info = {"call": "DirectModel(2-D data, 'sphere+cylinder') with only A magnetised, "
+                    "up_frac_i=0.3, up_frac_f=0.8",
+            "max_relative_difference_to_sum_of_parts_alone": err}
+    return err > 1e-6, info
